@@ -1,5 +1,5 @@
 (** C05 - The server never overbooks a worker and only places tasks where they can run. *)
-From HQ Require Import Base.Prelude Cluster.Types Cluster.Core Cluster.Reactor Cluster.Worker Cluster.Server Cluster.Sys Cluster.Monitors Cluster.ProofsJob Cluster.ProofsCore Cluster.ProofsMore Cluster.BijFinal Cluster.RejHyp Cluster.InvWFinal Cluster.CrashFrame Cluster.ProofsOnce Cluster.BijWitness.
+From HQ Require Import Base.Prelude Cluster.Types Cluster.Core Cluster.Reactor Cluster.Worker Cluster.Server Cluster.Sys Cluster.Monitors Cluster.ProofsJob Cluster.ProofsCore Cluster.ProofsMore Cluster.BijFinal Cluster.RejHyp Cluster.InvWFinal Cluster.CrashFrame Cluster.ProofsOnce Cluster.BijWitness Cluster.BijFinal Cluster.NoPanicU0 Cluster.AcctStep Cluster.AcctFinal Cluster.AcctCore.
 From Coq Require Import ZArith.
 Local Open Scope N_scope.
 From HQ Require Sched.Model Sched.ProofsRows.
@@ -10,6 +10,7 @@ Module SP := HQ.Sched.ProofsRows.
     exactly (no saturation involved). *)
 Theorem C05_reservation_roundtrip : forall w t rq w1 w2 a p f,
   w_assign w = Sn a p f -> tid_mem t a = false -> res_fits f rq = true -> length rq = length f ->
+  Forall2 (fun x c => x <= c) f (w_res w) ->
   insert_sn_task w t rq = Ok w1 -> remove_sn_task w1 t rq = Ok w2 ->
   w_assign w2 = Sn (tid_remove t (tid_insert t a)) p f.
 Proof. exact reservation_roundtrip. Qed.
@@ -60,8 +61,47 @@ Theorem C05_hypotheses_example :
   Forall op_wf once_ops /\ run_fresh (init_sys 0 2) once_ops = true.
 Proof. split; [repeat constructor|]. split; [vm_compute; reflexivity|]. split; [repeat constructor | vm_compute; reflexivity]. Qed.
 
+(** The accounting conjunct, and what exactly the known finding F23 is.  In every reachable state of
+    every history in which no subtraction from a free counter saturates ([fits_run], executable:
+    every scheduler answer fits the free resources of the workers it uses, and every task a worker
+    started from its prefilled backlog on its own fits the server's counter at the moment its
+    message is processed - the negation of F23), the accounting is EXACT: for every worker in
+    single-node mode, free + requests of the assigned tasks = total.  [op_dim]: requests have at
+    most the three resource kinds of the monitor. *)
+Theorem C05_accounting_exact : forall ops r m s outs,
+  Forall op_wf ops -> Forall op_dim ops -> ops_ok (init_sys r m) ops = true -> fits_run (init_sys r m) ops = true ->
+  run (init_sys r m) ops = Ok (s, outs) ->
+  forallb (worker_accounting_ok (s_core s)) (c_workers (s_core s)) = true.
+Proof. exact accounting_exact. Qed.
+(** ... at every index, without the bound on the number of resource kinds. *)
+Theorem C05_accounting_exact_all_indices : forall ops r m s outs,
+  Forall op_wf ops -> ops_ok (init_sys r m) ops = true -> fits_run (init_sys r m) ops = true ->
+  run (init_sys r m) ops = Ok (s, outs) ->
+  forall wk a p f, In wk (c_workers (s_core s)) -> w_assign wk = Sn a p f ->
+    length f = length (w_res wk) /\
+    forall i, nth i f 0 + fold_right (fun id acc => nth i (request_of (s_core s) id) 0 + acc) 0 a = nth i (w_res wk) 0.
+Proof. exact accounting_exact_all_indices. Qed.
+(** The whole core invariant [core_ok] (the monitor evaluated on every explored state) then holds,
+    up to the "one worker group" part of [mn_ok], which is a property of the solver's answer. *)
+Theorem C05_core_ok_exact : forall ops r m s outs,
+  Forall op_wf ops -> ops_ok (init_sys r m) ops = true -> run (init_sys r m) ops = Ok (s, outs) ->
+  Forall op_dim ops -> fits_run (init_sys r m) ops = true ->
+  forallb (mn_ok (s_core s)) (c_tasks (s_core s)) = true ->
+  core_ok (s_core s) = true.
+Proof. exact core_ok_exact. Qed.
+(** The hypothesis is exactly F23 (a history on which everything holds up to the step that processes
+    a self-started prefilled task; there [fits_step] is false and afterwards the accounting is),
+    and it is satisfiable by histories in which workers do start prefilled tasks on their own. *)
+Definition C05_f23_is_the_hypothesis := f23_is_the_hypothesis.
+Definition C05_accounting_hyps_ok := accounting_exact_hyps_ok.
+
 Print Assumptions C05_hypotheses_example.
 Print Assumptions C05_worker_sets_invariant.
 Print Assumptions C05_reservation_roundtrip.
 Print Assumptions C05_mn_only_on_free_workers.
 Print Assumptions C05_feasible_no_overbook.
+Print Assumptions C05_accounting_exact.
+Print Assumptions C05_accounting_exact_all_indices.
+Print Assumptions C05_core_ok_exact.
+Print Assumptions C05_f23_is_the_hypothesis.
+Print Assumptions C05_accounting_hyps_ok.
